@@ -187,7 +187,7 @@ def units(tier, seed=0):
                        entry='h_e_move_assign_watch_target', enforce='@F{%s}' % elem.RXE['move_assign'], replace=[], props=['C17', 'C06'], layer='element.hpp',
                        kind='bounded(span items <= 2, block <= 16 storage units, loops unwound)', unwind=8,
                        cdefs=['VF_BLOCK_K=1', 'VF_TRACKED=1', 'VF_ALLOC_MAY_FAIL=1'], config='allocation failure: element %s, allocator traits F=%d' % (spec, f)))
-    for spec in refops.REF_LISTS[tier]:
+    for spec in refops.REF_LISTS[tier] + EXTRA_REF_LISTS[tier]:
         txt, L = refops.c_unit(spec)
         cxx = refops.cxx_tu(spec)
         for name, h, key, props in refops.REF_UNITS:
@@ -196,7 +196,7 @@ def units(tier, seed=0):
             if 'ref.%s.%s' % (L.tag, name) in OVER_BUDGET: continue
             us.append(dict(id='ref.%s.%s' % (L.tag, name), tu='ref_' + L.tag, gen=cxx, template_text=txt, vars={}, entry=h,
                            enforce='@F{%s}' % refops.RXR[key], replace=[], props=props, layer='reference.hpp/elementTraits.hpp',
-                           kind='bounded(span items <= 2, loops unwound)', unwind=20, cdefs=['VF_TRACKED=1'], config='reference operations: ' + spec))
+                           kind='bounded(span items <= 2, loops unwound)', unwind=(24 if spec in EXTRA_REF_LISTS['thorough'] else 20), cdefs=['VF_TRACKED=1'], config='reference operations: ' + spec))   # byte loops of the 20-byte runs need 21 iterations
     for form in ('store_lvalue', 'store_rvalue'):
         us.append(dict(id='conv.tracked.%s' % form, tu='conv_tracked', gen=conv.cxx_tu_tracked(), template_text=conv.c_unit_tracked(form), vars={}, entry='h_store',
                        enforce='@F{%s}' % conv.STORE_RX[form], replace=[], props=['C15', 'C06'], layer='parameterTraits.hpp/memory.hpp',
@@ -219,9 +219,12 @@ def units(tier, seed=0):
                 txt, L = vec.c_unit(spec, f, maxc=2)
             if all(q.elem in 'ux' for q in L.params):
                 txt, L = vec.c_unit(spec, f, maxc=3)   # the comparison oracle enumerates the span items
-            for name, h, key, props, repl, extra in vec.VEC_UNITS_COMMON + (vec.VEC_UNITS_VAR if L.is_varying() else vec.VEC_UNITS_FIXED):
+            src_watch = [('move_assign.src_watch', 'h_move_assign_src', 'move_assign', ['C06', 'C09'], [], {'cdefs': ['VF_WINDOWS=1'], 'two': True, 'srcwatch': True})] if spec == 'f4t' else []
+            if spec == 'f4t':
+                src_watch.append(('copy_ctor.src_watch', 'h_copy_ctor_src', 'copy_ctor', ['C06', 'C09'], [], {'cdefs': ['VF_WINDOWS=1'], 'srcwatch': 'copy_ctor'}))
+            for name, h, key, props, repl, extra in vec.VEC_UNITS_COMMON + (vec.VEC_UNITS_VAR if L.is_varying() else vec.VEC_UNITS_FIXED) + src_watch:
                 if tracked:
-                    if name not in ('pop_back', 'clear', 'erase', 'dtor', 'emplace_back', 'subscript', 'copy_assign', 'move_assign') + (TRACKED_RELOC if len(L.params) == 1 else ()):
+                    if name not in ('pop_back', 'clear', 'erase', 'dtor', 'emplace_back', 'subscript', 'copy_assign', 'move_assign', 'move_assign.src_watch', 'copy_ctor.src_watch') + (TRACKED_RELOC if len(L.params) == 1 else ()):
                         continue
                     if name in ('copy_assign', 'move_assign') and len(L.params) > 1:
                         continue   # exceeds the memory budget for mixed lists
@@ -234,6 +237,7 @@ def units(tier, seed=0):
                 u = dict(id='vec.%s.F%d.%s' % (L.tag, f, name), tu='vec_%s_F%d' % (L.tag, f), gen=cxx, template_text=txt, vars={}, entry=h,
                          enforce=('@F{%s}' % vec.RXV[key]) if key else None, replace=['@F{%s}' % vec.REPL[r] for r in repl], props=props, layer='vector.hpp/elementLocator.hpp',
                          kind=extra.get('kind', 'proof'), config='vector: %s, allocator traits F=%d' % (spec, f), replay='history')
+                if extra.get('srcwatch'): u['template_text'] = copy_ctor_src_watch_text(txt) if extra['srcwatch'] == 'copy_ctor' else src_watch_text(txt)
                 if extra.get('intonly') and not all(q.elem in 'ux' for q in L.params): continue
                 if name == 'default_constructed' and L.nfixed and L.nvar: continue   # `V v;` leaves the fixed sizes of a mixed list indeterminate; reserve reads them: outside the contract of the library (false alarm corrected, DESIGN 14)
                 if extra.get('bytesonly') and not all(q.kind in 'pc' and q.elem == 'u' and q.size == 1 for q in L.params): continue
@@ -307,6 +311,55 @@ def exc_vec_units(tier):
                                cdefs=['VF_BLOCK_K=1', 'VF_ALLOC_MAY_FAIL=1', 'VF_WINDOWS=1', 'CAPK=%d' % capk, 'UNITSK=%d' % (unitsk // L.sa), 'CAPK_O=%d' % capo, 'UNITSK_O=%d' % (unitso // L.sa)],
                                config='allocation failure: vector %s, allocator traits F=%d' % (spec, f)))
     return us
+
+
+# reference lists with a coalesced trivial run of 16 bytes or more that is not a multiple of 16 (blocked copy/swap implementations have a tail there;
+# the lists of tools/refops.py have runs of at most 12 bytes): added after seeded change C11-5 was missed
+EXTRA_REF_LISTS = {'quick': ['p16 p4'], 'thorough': ['p16 p4', 'p8 p8 p4']}
+
+
+def src_watch_text(txt):
+    """variant of a Tracked vector unit whose watched object is an item of the SOURCE operand of move assignment (added after
+    seeded change C06-5 was missed: the generated harness watches an object of the target only).  Done here on the generated
+    text, so that the units generated by tools/vec.py keep their text (and their memoised results)."""
+    old_clause = '__CPROVER_ensures(MEM(v) != g_pre.mem ? (TRIVIAL_DTOR || !g_o_alive) : LIFE(v))'
+    assert txt.count(old_clause) == 2 and txt.count('\nvoid h_move_assign(void)\n') == 1 and txt.count('static Vp mkvec_o(void)') == 1
+    txt = txt.replace(old_clause, '__CPROVER_ensures(g_o_src || (MEM(v) != g_pre.mem ? (TRIVIAL_DTOR || !g_o_alive) : LIFE(v)))')
+    txt = txt.replace('static Vp mkvec_o(void)', 'static uint8_t g_o_src; /* 1: the watched object is a valid item of the source operand */\nstatic Vp mkvec_o(void)', 1)
+    i = txt.index('\nvoid h_move_assign(void)\n'); j = txt.index('\n}', i) + 2
+    h = txt[i:j].replace('h_move_assign(void)', 'h_move_assign_src(void)')
+    watch = (' g_ok = nondet_u8(); g_oj = nondet_u8(); __CPROVER_assume(g_ok < CAPK_O && g_oj < MAXC);'
+             ' if (OVALID(o)) { g_o = OITEM(o); g_o_alive = g_ok < COUNT(o); g_o_src = 1; } else { g_o = malloc(4); g_o_alive = 0; g_o_src = 0; }'
+             ' g_o_how = 0; g_o_from = 0; g_o_asg = 0; g_o_moved_from = 0;')
+    assert 'Vp o = mkvec_o();' in h
+    h = h.replace('Vp o = mkvec_o();', 'Vp o = mkvec_o();' + watch, 1)
+    txt = txt[:j] + h + txt[j:]
+    k = txt.index('\n__CPROVER_assigns(', txt.index('\nVp F_MOVE_ASSIGN('))
+    clause = ('\n__CPROVER_ensures(!g_o_src || MEM(o) != g_pre_o.mem || g_o_alive == (g_ok < COUNT(o))) /* C06 C09: a source that keeps its block keeps its objects alive exactly as long as it holds them (moved-from, not destroyed: it destroys them itself later) */'
+              '\n__CPROVER_ensures(!g_o_src || MEM(v) != g_pre_o.mem || g_o_alive == (g_ok < COUNT(v))) /* C06 C09: objects that change owner with the block are neither destroyed nor re-constructed */')
+    return txt[:k] + clause + txt[k:]
+
+
+def copy_ctor_src_watch_text(txt):
+    """copy construction of a vector of FixedSize<Tracked>: the watched object is an item of the source (the generated harness
+    watches none); the contract additionally counts the constructions: one copy construction per held item, no move"""
+    assert txt.count('\nvoid h_copy_ctor(void)\n') == 1 and txt.count('static Vp mkvec_o(void)') == 1
+    txt = txt.replace('static Vp mkvec_o(void)', 'static uint8_t g_o_src; /* 1: the watched object is a valid item of the source operand */\nstatic Vp mkvec_o(void)', 1)
+    i = txt.index('\nvoid h_copy_ctor(void)\n'); j = txt.index('\n}', i) + 2
+    h = txt[i:j].replace('h_copy_ctor(void)', 'h_copy_ctor_src(void)')
+    watch = (' g_ok = nondet_u8(); g_oj = nondet_u8(); __CPROVER_assume(g_ok < CAPK_O && g_oj < MAXC);'
+             ' if (OVALID(o)) { g_o = OITEM(o); g_o_alive = g_ok < COUNT(o); g_o_src = 1; } else { g_o = malloc(4); g_o_alive = 0; g_o_src = 0; }'
+             ' g_o_how = 0; g_o_from = 0; g_o_asg = 0; g_o_moved_from = 0; g_obj_live = nondet_u8() + 64; g_obj_copy = 0; g_obj_move = 0; g_obj_dtor = 0;')
+    assert 'Vp o = mkvec_o();' in h
+    h = h.replace('Vp o = mkvec_o();', 'Vp o = mkvec_o();' + watch, 1)
+    txt = txt[:j] + h + txt[j:]
+    k = txt.index('\n__CPROVER_assigns(', txt.index('\nvoid F_COPY_CTOR('))
+    clause = ('\n__CPROVER_ensures(!g_o_src || (g_o_alive == (g_ok < COUNT(o)) && !g_o_moved_from)) /* C06 C09 C15: copying leaves the objects of the source alive and not moved from */'
+              '\n__CPROVER_ensures(g_obj_copy == COUNT(o) * (uint64_t)VFS(o, 0) && g_obj_move == 0 && g_obj_dtor == 0) /* C06: every held object is copy-constructed exactly once through the value type, nothing is moved or destroyed */'
+              '\n__CPROVER_ensures(g_obj_live == __CPROVER_old(g_obj_live) + COUNT(o) * (uint64_t)VFS(o, 0)) /* C06: afterwards the live objects are those of the source plus one per item of the copy */')
+    txt = txt[:k] + clause + txt[k:]
+    k = txt.index('\n__CPROVER_assigns(', txt.index('\nvoid F_COPY_CTOR(')) + len('\n__CPROVER_assigns(')
+    return txt[:k] + vec.LIFE_VARS + ', ' + txt[k:]
 
 
 # relocation of non-trivial objects (C06): reserve beyond capacity, copy/move construction, swap; single-field Tracked lists only (memory budget)
